@@ -9,6 +9,7 @@
 //   - inside the write closure the merged pipeline error is checked with `<-mergedErrC`, that
 //     branch returns a non-nil error, and the point counter / id counter are written only after
 //     that check (success path), nowhere else.
+//
 // A function or statement the tool cannot find is a broken tie: exit status 1, never a guess.
 package main
 
@@ -47,6 +48,63 @@ func die(format string, a ...any) {
 	os.Exit(1)
 }
 
+// The variables the facts speak about are found by their ROLE in the entry point that is being analysed
+// (what they are assigned from), not by their names:
+//
+//	roleTx       x := s.cacheManager.NewTransaction()
+//	roleErr      x := s.db.Write(…) / s.db.Read(…)
+//	roleMerged   x := utils.MergeErrorsWithContext(…)        (inside the closure)
+//	roleCounter  x, _ := NewIdCounter(…)                      (inside the closure)
+var roleTx, roleErr, roleMerged, roleCounter *ast.Object
+
+func findRoles(fn *ast.FuncDecl) {
+	roleTx, roleErr, roleMerged, roleCounter = nil, nil, nil, nil
+	ast.Inspect(fn.Body, func(n ast.Node) bool {
+		as, ok := n.(*ast.AssignStmt)
+		if !ok || len(as.Rhs) != 1 || len(as.Lhs) < 1 {
+			return true
+		}
+		id, ok := as.Lhs[0].(*ast.Ident)
+		if !ok || id.Obj == nil {
+			return true
+		}
+		c, ok := as.Rhs[0].(*ast.CallExpr)
+		if !ok {
+			return true
+		}
+		name := ""
+		switch f := c.Fun.(type) {
+		case *ast.Ident:
+			name = f.Name
+		case *ast.SelectorExpr:
+			name = f.Sel.Name
+		}
+		switch {
+		case name == "NewTransaction" && roleTx == nil:
+			roleTx = id.Obj
+		case name == "MergeErrorsWithContext" && roleMerged == nil:
+			roleMerged = id.Obj
+		case name == "NewIdCounter" && roleCounter == nil:
+			roleCounter = id.Obj
+		}
+		return true
+	})
+}
+
+// isCallOn reports whether e is <variable obj>.method(args...) and returns the args
+func isCallOn(e ast.Expr, obj *ast.Object, method string) ([]ast.Expr, bool) {
+	c, ok := e.(*ast.CallExpr)
+	if !ok || obj == nil {
+		return nil, false
+	}
+	s, ok := c.Fun.(*ast.SelectorExpr)
+	if !ok || s.Sel.Name != method {
+		return nil, false
+	}
+	x, ok := s.X.(*ast.Ident)
+	return c.Args, ok && x.Obj == obj
+}
+
 // isCall reports whether e is recv.method(args...) and returns the args
 func isCall(e ast.Expr, recv, method string) ([]ast.Expr, bool) {
 	c, ok := e.(*ast.CallExpr)
@@ -71,7 +129,7 @@ func commitArg(st ast.Stmt) (string, bool) {
 	if !ok {
 		return "", false
 	}
-	args, ok := isCall(es.X, "cacheTx", "Commit")
+	args, ok := isCallOn(es.X, roleTx, "Commit")
 	if !ok || len(args) != 1 {
 		return "", false
 	}
@@ -89,15 +147,15 @@ func lastIsNil(r *ast.ReturnStmt) bool {
 	return ok && id.Name == "nil"
 }
 
-// errNotNilCond: `err != nil`
-func errNotNilCond(e ast.Expr) bool {
+// errNotNilCond: `<errVar> != nil` for the given variable
+func errNotNilCond(e ast.Expr, errVar *ast.Object) bool {
 	b, ok := e.(*ast.BinaryExpr)
-	if !ok || b.Op != token.NEQ {
+	if !ok || b.Op != token.NEQ || errVar == nil {
 		return false
 	}
 	x, ok1 := b.X.(*ast.Ident)
 	y, ok2 := b.Y.(*ast.Ident)
-	return ok1 && ok2 && x.Name == "err" && y.Name == "nil"
+	return ok1 && ok2 && x.Obj == errVar && y.Name == "nil"
 }
 
 // walkReturns visits every return statement of a statement list (not inside function literals),
@@ -155,26 +213,34 @@ func isChangePointCount(c *ast.CallExpr) bool {
 	return ok && id.Name == "changePointCount"
 }
 func isCounterFlush(c *ast.CallExpr) bool {
-	_, ok := isCall(c, "nodeCounter", "Flush")
+	_, ok := isCallOn(c, roleCounter, "Flush")
 	return ok
 }
 
-// recvFromMerged: `err := <-mergedErrC`
-func recvFromMerged(st ast.Stmt) bool {
+// recvFromMerged: `e := <-<merged error channel>`; returns the variable e
+func recvFromMerged(st ast.Stmt) (*ast.Object, bool) {
 	as, ok := st.(*ast.AssignStmt)
-	if !ok || len(as.Rhs) != 1 {
-		return false
+	if !ok || len(as.Rhs) != 1 || len(as.Lhs) != 1 || roleMerged == nil {
+		return nil, false
 	}
 	u, ok := as.Rhs[0].(*ast.UnaryExpr)
 	if !ok || u.Op != token.ARROW {
-		return false
+		return nil, false
 	}
 	id, ok := u.X.(*ast.Ident)
-	return ok && id.Name == "mergedErrC"
+	if !ok || id.Obj != roleMerged {
+		return nil, false
+	}
+	l, ok := as.Lhs[0].(*ast.Ident)
+	if !ok {
+		return nil, false
+	}
+	return l.Obj, true
 }
 
 func analyse(fn *ast.FuncDecl) entry {
 	e := entry{name: fn.Name.Name}
+	findRoles(fn)
 	body := fn.Body.List
 	newTx, txIdx := -1, -1
 	var closure *ast.FuncLit
@@ -184,16 +250,18 @@ func analyse(fn *ast.FuncDecl) entry {
 			continue
 		}
 		if _, ok := isCall(as.Rhs[0], "cacheManager", "NewTransaction"); ok && newTx < 0 {
-			if id, ok := as.Lhs[0].(*ast.Ident); !ok || id.Name != "cacheTx" {
-				die("%s: the cache transaction is not called cacheTx", e.name)
+			if id, ok := as.Lhs[0].(*ast.Ident); !ok || id.Obj == nil || id.Obj != roleTx {
+				die("%s: the cache transaction is not bound to a variable at the top level of the function", e.name)
 			}
 			newTx = i
 		}
 		for _, m := range []string{"Write", "Read"} {
 			if args, ok := isCall(as.Rhs[0], "db", m); ok && txIdx < 0 {
-				if id, ok := as.Lhs[0].(*ast.Ident); !ok || id.Name != "err" || len(args) != 1 {
+				id, ok := as.Lhs[0].(*ast.Ident)
+				if !ok || id.Obj == nil || len(as.Lhs) != 1 || len(args) != 1 {
 					die("%s: unexpected shape of the s.db.%s statement", e.name, m)
 				}
+				roleErr = id.Obj
 				fl, ok := args[0].(*ast.FuncLit)
 				if !ok {
 					die("%s: s.db.%s is not given a function literal", e.name, m)
@@ -210,7 +278,7 @@ func analyse(fn *ast.FuncDecl) entry {
 	// the error branch: first `if err != nil` after the transaction statement
 	ifIdx := -1
 	for i := txIdx + 1; i < len(body); i++ {
-		if is, ok := body[i].(*ast.IfStmt); ok && is.Init == nil && errNotNilCond(is.Cond) {
+		if is, ok := body[i].(*ast.IfStmt); ok && is.Init == nil && errNotNilCond(is.Cond, roleErr) {
 			ifIdx = i
 			break
 		}
@@ -259,12 +327,16 @@ func analyse(fn *ast.FuncDecl) entry {
 			e.laterReturnsCommit = false
 		}
 	})
-	e.noCommitInClosure = countCalls(closure, func(c *ast.CallExpr) bool { _, ok := isCall(c, "cacheTx", "Commit"); return ok }) == 0
+	e.noCommitInClosure = countCalls(closure, func(c *ast.CallExpr) bool { _, ok := isCallOn(c, roleTx, "Commit"); return ok }) == 0
 	// inside the closure
 	cl := closure.Body.List
 	mergedIdx := -1
 	for i, st := range cl {
-		if is, ok := st.(*ast.IfStmt); ok && is.Init != nil && recvFromMerged(is.Init) && errNotNilCond(is.Cond) {
+		is, ok := st.(*ast.IfStmt)
+		if !ok || is.Init == nil {
+			continue
+		}
+		if ev, ok := recvFromMerged(is.Init); ok && errNotNilCond(is.Cond, ev) {
 			mergedIdx = i
 			e.mergedErrChecked = true
 			e.mergedErrReturnsErr = len(is.Body.List) > 0
@@ -321,6 +393,7 @@ func main() {
 	if err != nil {
 		die("cannot parse %s: %v", path, err)
 	}
+	NormalizeFile(fset, f, AllNorm) // behaviour-preserving normal form (log calls dropped, …): astnorm_gen.go
 	want := []string{"InsertPoints", "UpdatePoints", "DeletePoints", "SearchPoints"}
 	found := map[string]entry{}
 	for _, d := range f.Decls {
